@@ -19,7 +19,8 @@
 //!
 //! Trace = API-level events (`scope.enter/spawn/fend/fpanic`, `sjoin`, `child.begin/end/panic`, `frame.drop`,
 //! `spawn`, `join`, `cancel`) + the hooked operations of `join.rs` (Join.state, Join.to_wake), the result / panic
-//! slots (`coroutine_impl.rs`, `scoped.rs`) and `cancel.rs` (cancel bit).
+//! slots (`coroutine_impl.rs`, `scoped.rs`) and `cancel.rs` (the cancel word: the canceller's `fetch_or(1)` and the
+//! `fetch_add(2)` / `fetch_sub(2)` of the `disable_cancel` bracket of `JoinState::join` are replayed, the loads skipped).
 use super::{spawn_actor_thread, LiveBuilt};
 use crate::rt::{call, ret, Rng};
 use may::coroutine;
@@ -441,7 +442,7 @@ pub fn build(rng: &mut Rng, tier: u32) -> LiveBuilt {
     let top = Arc::new(top);
     LiveBuilt {
         header,
-        filter: vec!["src/join.rs", "src/coroutine_impl.rs", "src/scoped.rs"],
+        filter: vec!["src/join.rs", "src/coroutine_impl.rs", "src/scoped.rs", "src/cancel.rs"],
         hang_ms: 4000,
         run: Box::new(move || {
             // injected panics are part of the scenario: keep them quiet, report everything else
